@@ -313,6 +313,13 @@ Definition install (ko : option jkind) (dels : list N) (jn : option N) (s : st) 
     end in
   set_sjnum (match jn with Some j => j | None => sjnum s end) (set_tb (retag f (tb s)) s).
 
+(* the caller of a failing commit remembers the failure (tr.commitFailed; the compaction job goes on retrying) *)
+Definition mark_failed (ko : option jkind) (s : st) : st :=
+  match ko with
+  | Some k => let j := getjob k s in setjob k {| j_on := j_on j; j_del := j_del j; j_cfail := true |} s
+  | None => s
+  end.
+
 (* session.commit(rec): ko = the job whose finished tables the record adds (None: an empty record), dels = the
    tables it deletes, jn = its journal number if it sets one, rot = the size bound asks for a new manifest,
    o = how it ends, rmok = whether removing the old (or, on failure, the new) manifest file succeeds.
@@ -335,15 +342,15 @@ Definition commit (ko : option jkind) (dels : list N) (jn : option N) (rot : boo
     | _ =>
         let s2 := set_files (fadd (files s1) (FManifest, m)) s1 in
         let s3 := fst (do_rm (FManifest, m) rmok RFailed s2) in
-        (reuse_num m s3, false)
+        (mark_failed ko (reuse_num m s3), false)
     end
   else
     let v0 := hd dflt_view (views s) in
     let r := apply_rec v0 (outs_of ko s) dels jn (next s) in
     match o with
     | COk => (set_views [r] (install ko dels jn s), true)
-    | CFailClean => (set_mfailed true s, false)
-    | CFailDirty => (set_mfailed true (set_views (views s ++ [r]) s), false)
+    | CFailClean => (mark_failed ko (set_mfailed true s), false)
+    | CFailDirty => (mark_failed ko (set_mfailed true (set_views (views s ++ [r]) s)), false)
     end.
 
 (* ---------- Open: session.recover (the view), recoverJournal, checkAndCleanFiles ---------- *)
@@ -559,7 +566,7 @@ Definition step (s : st) (o : op) : option st :=
         let '(s1, ok) := commit (Some k) (j_del j) jn rot o rmok s in
         if ok then
           Some (setjob k job_off (match k with KFlush => set_fdone true s1 | _ => s1 end))
-        else Some (setjob k {| j_on := true; j_del := j_del j; j_cfail := true |} s1)
+        else Some s1
       else None
   | ORevert k bad =>
       let j := getjob k s in
